@@ -413,11 +413,17 @@ func (tdStoreStream) Oracle(c Case, impl string) (bool, string, string) {
 			ref.users[dn] = as
 		case "S":
 			base, filter := string(unhx(p[1])), string(unhx(p[2]))
-			// only the exact-DN lookups under the user base are judged by the reference map
-			if !strings.EqualFold(base, testdirectory.DefaultUserDN) || !strings.HasPrefix(filter, "(") || strings.ContainsAny(filter[1:len(filter)-1], "()*|&") {
+			// judged by the reference map: the exact-DN lookups under the user base, and the look-up of an entry by its
+			// own DN as the search base (any filter that matches everything)
+			var dn string
+			switch {
+			case strings.EqualFold(base, testdirectory.DefaultUserDN) && strings.HasPrefix(filter, "(") && !strings.ContainsAny(filter[1:len(filter)-1], "()*|&"):
+				dn = filter[1 : len(filter)-1]
+			case filter == "(objectClass=*)" && strings.Contains(base, testdirectory.DefaultUserDN) && !strings.EqualFold(base, testdirectory.DefaultUserDN):
+				dn = base
+			default:
 				continue
 			}
-			dn := filter[1 : len(filter)-1]
 			as, ok := ref.users[dn]
 			if !ok {
 				// a DN that is not stored may still be a substring of nothing in the clean pool
